@@ -85,6 +85,13 @@ type LimitV struct {
 }
 type OpaqueV struct{ Kind string; Ref int }
 
+// output side of a bufio.Writer / bytes.Buffer pair: everything written, in order
+type WriterV struct {
+	A     *Term
+	N     *Term
+	Under int // object id of the bytes.Buffer (0 if none)
+}
+
 type ChanState struct {
 	Env    bool
 	Cap    int
